@@ -13,12 +13,13 @@ RULE = ("schemas of 1..7 uniquely named fields over all 10 number types with ord
         "up to 300 / record sizes up to several KB), optional VSsetblocksize/VSsetnumblocks, optional name/class; "
         "histories of VSwrite (FULL or NO_INTERLACE user buffers, 1..60 records or bursts crossing the 1 MB transfer "
         "buffer / linked-block growth), VSseek, overwrite, append, VSread of any field subset/permutation in either "
-        "interlace, VSdetach/VSattach r|w, Vend/Hclose/reopen, VSinquire/VSelts/VSsizeof/VFnfields/VFfield*, "
+        "interlace, VSdetach/VSattach r|w, Vend/Hclose/reopen, VSinquire/VSelts/VSsizeof/VSgetinterlace/VSfexist/VSfindex/VFnfields/VFfield*, "
         "VSfpack pack->unpack; numpy structured-table model. Non-trivial = >=2 fields of different sizes and "
         "(subset/permuted read, or NO_INTERLACE buffer, or overwrite after seek, or append after reopen).")
 BUDGET = {"quick": {"shards": 8, "cases": 250}, "thorough": {"shards": 16, "cases": 3000}}
 MIN_NT = {"quick": 400, "thorough": 6000}
-ASSUMPTIONS = ["Vdata file interlace left at FULL_INTERLACE", "field names unique",
+ASSUMPTIONS = ["a Vdata stored with NO_INTERLACE (one case in six) is written by one call and read as a whole "
+               "(the storage layout depends on the record count)", "field names unique",
                "VSsetfields for writing is issued once, on the empty vdata",
                "seeks stay within [0, nrecs]; reads stay within the stored records"]
 NT_LABELS = {"subset_read", "nointerlace", "overwrite", "append_after_reopen"}
@@ -71,7 +72,8 @@ def strategy_(draw, tier):
     blocks = None
     if draw(st.integers(0, 9)) < 3:
         blocks = [draw(st.sampled_from([16, 64, 512, 4096])), draw(st.integers(1, 5))]
-    return {"fields": fields, "ops": ops, "blocks": blocks, "name": draw(st.sampled_from([None, "tbl", "a b"]))}
+    return {"fields": fields, "ops": ops, "blocks": blocks, "name": draw(st.sampled_from([None, "tbl", "a b"])),
+            "file_il": 1 if draw(st.integers(0, 5)) == 0 else 0}
 
 
 def strategy(tier):
@@ -139,6 +141,11 @@ def run_case(case):
         if case["name"]:
             checks.append((p.call("i", "VSsetname", V("vs"), case["name"]), "ret0", "VSsetname"))
         checks.append((p.call("i", "VSsetfields", V("vs"), allnames), "ret0", "VSsetfields(all)"))
+        file_il = case.get("file_il", 0)
+        if file_il:
+            # field-after-field storage: all records are written by one call and read back as a whole
+            checks.append((p.call("i", "VSsetinterlace", V("vs"), NOI), "ret0", "VSsetinterlace"))
+            labels.add("file_nointerlace")
         if case["blocks"]:
             checks.append((p.call("i", "VSsetblocksize", V("vs"), case["blocks"][0]), "ret0", "VSsetblocksize"))
             checks.append((p.call("i", "VSsetnumblocks", V("vs"), case["blocks"][1]), "ret0", "VSsetnumblocks"))
@@ -157,6 +164,8 @@ def run_case(case):
             if k == "write":
                 _, n, il, seed = op
                 if mode != "w":
+                    continue
+                if file_il and (wrote or pos != 0):
                     continue
                 if n * recsize > 6_000_000:
                     n = max(1, 6_000_000 // recsize)
@@ -184,13 +193,16 @@ def run_case(case):
                 if n * recsize > 1_000_000:
                     labels.add("big_transfer")
             elif k == "seek":
-                if nrecs() == 0:
+                if nrecs() == 0 or file_il:
                     continue
                 tgt = min(op[1], nrecs() - 1)
                 checks.append((p.call("i", "VSseek", V("vs"), tgt), "retn", (tgt, "VSseek %d" % tgt)))
                 pos = tgt
             elif k == "read":
                 _, n, sub, il = op
+                if file_il and nrecs() > 0:
+                    checks.append((p.call("i", "VSseek", V("vs"), 0), "retn", (0, "VSseek 0")))
+                    pos, n = 0, nrecs()
                 if nrecs() == 0 or pos >= nrecs():
                     continue
                 n = min(n, nrecs() - pos)
@@ -223,7 +235,7 @@ def run_case(case):
                                "VSattach %s" % newmode))
                 mode = newmode
                 pos = 0
-                if mode == "w" and nrecs() > 0 and k == "reopen":
+                if mode == "w" and nrecs() > 0 and k == "reopen" and not file_il:
                     # typical append: position at the end
                     checks.append((p.call("i", "VSseek", V("vs"), nrecs() - 1), "retn", (nrecs() - 1, "VSseek last")))
                     checks.append((p.call("i", "VSsetfields", V("vs"), allnames), "ret0", "VSsetfields(all)"))
@@ -235,7 +247,12 @@ def run_case(case):
                     pos = nrecs()
             elif k == "inquire":
                 ln = p.call("i", "VSinquire", V("vs"), Out(4), Out(4), OutS(2000), Out(4), OutS(300))
-                checks.append((ln, "inquire", (nrecs(), allnames, recsize, case["name"])))
+                checks.append((ln, "inquire", (nrecs(), allnames, recsize, case["name"], file_il)))
+                checks.append((p.call("i", "VSgetinterlace", V("vs")), "retn", (file_il, "VSgetinterlace")))
+                checks.append((p.call("i", "VSfexist", V("vs"), allnames), "retn", (1, "VSfexist(all)")))
+                checks.append((p.call("i", "VSfexist", V("vs"), "no_such_field"), "retn", (-1, "VSfexist(absent)")))
+                ln2 = p.call("i", "VSfindex", V("vs"), fields[-1][0], Out(4))
+                checks.append((ln2, "findex", (nf - 1, fields[-1][0])))
                 checks.append((p.call("i", "VSelts", V("vs")), "retn", (nrecs(), "VSelts")))
                 checks.append((p.call("i", "VFnfields", V("vs")), "retn", (nf, "VFnfields")))
                 for i in range(nf):
@@ -246,6 +263,7 @@ def run_case(case):
                     checks.append((p.call("i", "VFfieldorder", V("vs"), i), "retn", (fields[i][2],
                                                                                     "VFfieldorder %d" % i)))
                     checks.append((p.call("i", "VFfieldesize", V("vs"), i), "retn", (sizes[i], "VFfieldesize %d" % i)))
+                    checks.append((p.call("i", "VFfieldisize", V("vs"), i), "retn", (sizes[i], "VFfieldisize %d" % i)))
                 checks.append((p.call("i", "VSsizeof", V("vs"), allnames), "retn", (recsize, "VSsizeof(all)")))
                 checks.append((p.call("i", "VSsizeof", V("vs"), fields[-1][0]), "retn", (sizes[-1], "VSsizeof(last)")))
             elif k == "fpack":
@@ -309,18 +327,23 @@ def run_case(case):
                             raise Fail("VSread value differs from table model", what=what, field_pos_in_list=j,
                                        record=rec, expected=str(e[rec][:4]), observed=str(g[rec][:4]))
                 elif ck == "inquire":
-                    n, names, rs, nm = pay
+                    n, names, rs, nm = pay[:4]
+                    FULL_ = pay[4] if len(pay) > 4 else FULL
                     if r.ret != 0:
                         raise Fail("VSinquire failed")
                     gn = struct.unpack("=i", r.bufs[0])[0]
                     gil = struct.unpack("=i", r.bufs[1])[0]
                     gf = r.bufs[2]
                     gs = struct.unpack("=i", r.bufs[3])[0]
-                    if gn != n or gil != FULL or gf != names.encode() or gs != rs:
-                        raise Fail("VSinquire differs", expected=[n, FULL, names, rs],
+                    if gn != n or gil != FULL_ or gf != names.encode() or gs != rs:
+                        raise Fail("VSinquire differs", expected=[n, FULL_, names, rs],
                                    observed=[gn, gil, str(gf), gs])
                     if nm is not None and r.bufs[4] != nm.encode():
                         raise Fail("VSinquire name differs", expected=nm, observed=str(r.bufs[4]))
+                elif ck == "findex":
+                    idx = struct.unpack("=i", r.bufs[0])[0]
+                    if r.ret != 0 or idx != pay[0]:
+                        raise Fail("VSfindex differs", field=pay[1], expected=pay[0], observed=idx, ret=r.ret)
                 elif ck == "fpack":
                     if r.ret != 0 or r.bufs[0] != pay[0]:
                         raise Fail("VSfpack pack->unpack does not round-trip", ret=r.ret)
